@@ -301,10 +301,21 @@ func routingScenario(s *Sim, params map[string]string) {
 					if len(req) == 0 {
 						req[tn] = []kafka.OffsetRequest{kafka.FirstOffsetOf(part)}
 					}
+					// (a pooled connection that an earlier outage broke and that has
+					// not been used since costs the first request that takes it)
+					stale := false
+					for _, cn := range n.Conns() {
+						if cn.Owner == "router" && cn.ServerDead() && !cn.ClientClosed() {
+							stale = true
+						}
+					}
 					lres, lerr := client.ListOffsets(ctx, &kafka.ListOffsetsRequest{Topics: req})
 					// once the cluster has been left alone for a few refresh periods
 					// every partition is reachable again
-					settled := s.Now()-lastEvent > 3*ttl+3*time.Second && cl.F.ErrorCode == 0 && cl.F.Stall == 0
+					settled := s.Now()-lastEvent > 3*ttl+3*time.Second && cl.F.ErrorCode == 0 && cl.F.Stall == 0 && !stale
+					if stale {
+						s.Count("call-with-a-stale-pooled-connection")
+					}
 					for x := range req {
 						for _, pp := range cl.Topics[x].Parts {
 							if ld := cl.Broker(pp.Leader); ld == nil || ld.Versions[2][1] < int16(protocol.ApiKey(2).MinVersion()) || ld.Versions[2][0] > int16(protocol.ApiKey(2).MaxVersion()) {
@@ -535,6 +546,14 @@ func routingOracle(s *Sim, cl *Cluster, ttl, maxLat time.Duration, moves, downAt
 		if len(routingResets) > 0 && r.At >= routingResets[0] {
 			continue
 		}
+		// (A request at a version the broker does not serve — no version in
+		// common — is answered by a closed connection; a queue of such requests
+		// routed before the first metadata arrived drains one dial at a time
+		// and reaches the bootstrap broker long after: their destination says
+		// nothing.)
+		if r.Note == "unsupported-version" {
+			continue
+		}
 		var want func(sn snapshot) (int32, bool)
 		var leaderOf func() *Partition
 		what := ""
@@ -664,6 +683,11 @@ func routingOracle(s *Sim, cl *Cluster, ttl, maxLat time.Duration, moves, downAt
 				if l == b.ID {
 					ok = true
 				}
+			} else {
+				// a snapshot that does not know the partition (a topic created
+				// a moment ago) designates nobody: a request routed with it goes
+				// over the connection to the cluster, whichever broker that is
+				ok = true
 			}
 		}
 		if len(seen) > 0 && !ok {
